@@ -112,7 +112,7 @@ def own_offset(za, x):
         return None
     if x.get("k") == "call" and short(x.get("name") or "") in ("begin", "cbegin", "end", "cend") and (x.get("this") is None or is_this(x.get("this"))) and not x.get("args"):
         return (Z, 0) if "begin" in short(x["name"]) else ("size_", 0)
-    if x.get("k") == "call" and short(x.get("name") or "") in ("get", "data") and x.get("this") is not None and fmt(ir.unwrap(x["this"])) in ("data_", "this"):
+    if x.get("k") == "call" and short(x.get("name") or "") in ("get", "data") and not x.get("args") and (x.get("this") is None or fmt(ir.unwrap(x["this"])) in ("data_", "this") or is_this(x.get("this"))):
         return (Z, 0)
     u = ir.as_unop(x)
     if u and u[0] == "&":
@@ -130,6 +130,25 @@ def own_offset(za, x):
                 return (base[0], base[1] + sgn * k[1])
             if sgn == 1:
                 return (k[0], base[1] + k[1])
+    return None
+
+
+def foreign_offset(za, x):
+    """(object name, (var, const)) if x is v.data() / v.begin() / v.end() (+ k) of a fixed_vector parameter v"""
+    x = ir.unwrap(x)
+    if not isinstance(x, dict):
+        return None
+    if x.get("k") == "call" and short(x.get("name") or "") in ("data", "begin", "cbegin", "end", "cend") and x.get("this") is not None and not x.get("args"):
+        o = ir.unwrap(x["this"])
+        if isinstance(o, dict) and o.get("k") == "ref" and o.get("decl", "").startswith("param:"):
+            nm = o["decl"][6:]
+            return (nm, (nm + ".size_", 0) if "end" in short(x["name"]) else (Z, 0))
+    bo = ir.as_binop(x)
+    if bo and bo[0] == "+":
+        b0 = foreign_offset(za, bo[1])
+        k = za.lin(bo[2])
+        if b0 is not None and k is not None and k[0] == Z:
+            return (b0[0], (b0[1][0], b0[1][1] + k[1]))
     return None
 
 
@@ -211,6 +230,15 @@ class FVAnalysis:
                 dst, ln = own_offset(za, args[0]), za.lin(args[1])
             if dst is not None:
                 self._ev("bulk_write", n, z, (dst, ln))
+            # the source side: reading [first, first + len) out of another fixed_vector's storage
+            if full in ("std::copy", "std::move", "std::copy_n", "std::uninitialized_copy", "std::uninitialized_copy_n", "std::uninitialized_move") and len(args) == 3:
+                src = foreign_offset(za, args[0])
+                if src is not None:
+                    sl = za.lin(args[1]) if full.endswith("_n") else None
+                    if not full.endswith("_n"):
+                        e2 = foreign_offset(za, args[1])
+                        sl = ("$end", e2) if e2 is not None and e2[0] == src[0] else None
+                    self._ev("bulk_read", n, z, (src, sl))
         # member function of *this that may change the size (non-const / unresolved): havoc size_, assume its postcondition I
         if th is not None and is_this(th) or (n.get("dep") and th is None and nm in self.method_names()):
             cid = n.get("callee")
@@ -513,6 +541,25 @@ def run(ctx):
             hi_ok, desc = bulk_bound(z, dst, ln)
             ctx.check(bool(hi_ok), "R06.3", f, "bulk-write-in-bounds:%s@%s" % (tag, node.get("ln")),
                       "%s writes the slots %s with %s and `end <= capacity_` is not provable [known there: %s]" % (short(f.qual), desc, short(node.get("name") or ""), z.show()[:160]), (f, node.get("ln")))
+        # range algorithms READING another container's storage: only its elements, i.e. [.., size_), never the unfilled tail
+        for (kind, node, z, b, e, extra) in a.events:
+            if kind != "bulk_read":
+                continue
+            (obj, off), ln = extra
+            sz = obj + ".size_"
+            okr = False
+            if ln is not None and ln[0] == "$end":
+                endo = ln[1][1]
+                okr = z.entails(endo[0], sz, -endo[1]) if endo[0] != Z else z.entails(Z, sz, -endo[1])
+                desc = "[%s, %s)" % (_show_t(off), _show_t(endo))
+            elif ln is not None and off[0] == Z:
+                okr = z.entails(ln[0], sz, -(ln[1] + off[1])) if ln[0] != Z else z.entails(Z, sz, -(ln[1] + off[1]))
+                desc = "[%s, %s + %s)" % (_show_t(off), _show_t(off), _show_t(ln))
+            else:
+                desc = "[%s, ?)" % _show_t(off)
+            ctx.check(bool(okr), "R06.3", f, "bulk-read-within-size:%s@%s" % (tag, node.get("ln")),
+                      "%s reads the slots %s of `%s` with %s and `end <= %s.size_` is not provable: slots behind size() hold values the container does not contain (popped, erased or never "
+                      "filled ones are copied along; for a moved-from source the range lies over null storage)" % (short(f.qual), desc, obj, short(node.get("name") or ""), obj), (f, node.get("ln")))
         # writes that are justified by capacity_ alone (not below size_) need the storage to exist whenever capacity_ > 0
         if not is_ctor:
             # blocks in which *this receives storage (assignment / swap of data_): a write dominated by one of them has its own storage
